@@ -9,3 +9,5 @@ for p in "$@"; do
   echo "$p exit=$rc $(echo "$out" | grep VIOLATION | head -3)"
 done
 git -C /repo checkout -- . ; git -C /repo status --short | head -3
+# evidence written while a seeded defect was applied is not evidence about /repo
+git -C /verif checkout -- evidence 2>/dev/null
